@@ -7,14 +7,18 @@ Open Scope Z_scope.
 (* ------------------------------------------------------------------ kernels *)
 Lemma K_set_fixed_ne v i : set_fixed_ne v i = false <-> v = i.
 Proof. unfold set_fixed_ne. rewrite negb_false_iff, Z.eqb_eq. tauto. Qed.
+Lemma K_set_ge v lo : set_ge v lo = true <-> lo <= v.
+Proof. unfold set_ge. rewrite Z.geb_leb. apply Z.leb_le. Qed.
+Lemma K_set_le v hi : set_le v hi = true <-> v <= hi.
+Proof. unfold set_le. apply Z.leb_le. Qed.
 Lemma K_set_below v lo : set_below v lo = true <-> v < lo.
-Proof. unfold set_below. apply Z.ltb_lt. Qed.
+Proof. unfold set_below. rewrite negb_true_iff, <- not_true_iff_false, K_set_ge. lia. Qed.
 Lemma K_set_above v hi : set_above v hi = true <-> v > hi.
-Proof. unfold set_above. rewrite Z.gtb_lt. lia. Qed.
+Proof. unfold set_above. rewrite negb_true_iff, <- not_true_iff_false, K_set_le. lia. Qed.
 Lemma K_mkfix_oob v lo hi : mkfix_oob v lo hi = false <-> lo <= v <= hi.
 Proof. unfold mkfix_oob. rewrite orb_false_iff, Z.ltb_ge, Z.gtb_ltb, Z.ltb_ge. lia. Qed.
 Lemma K_mkfl_oob v lo hi : mkfl_oob v lo hi = false <-> lo <= v <= hi.
-Proof. unfold mkfl_oob. rewrite orb_false_iff, Z.ltb_ge, Z.gtb_ltb, Z.ltb_ge. lia. Qed.
+Proof. unfold mkfl_oob. rewrite negb_false_iff, andb_true_iff, Z.geb_leb, !Z.leb_le. lia. Qed.
 Lemma K_add_front_fx_shift v : add_front_fx_shift v = v + 1. Proof. reflexivity. Qed.
 Lemma K_add_front_fl_shift v : add_front_fl_shift v = v + 1. Proof. reflexivity. Qed.
 Lemma K_add_front_fx_idx : add_front_fx_idx = 0. Proof. reflexivity. Qed.
@@ -35,7 +39,7 @@ Lemma K_rec_gpidx_fx g : rec_gpidx_fx g = - g - 1. Proof. reflexivity. Qed.
 Lemma K_mdict_midx_bad midx n : mdict_midx_bad midx n = false <-> 0 <= midx < n.
 Proof. unfold mdict_midx_bad. rewrite orb_false_iff, Z.ltb_ge, Z.geb_leb, Z.leb_gt. lia. Qed.
 
-Global Opaque set_fixed_ne set_below set_above mkfix_oob mkfl_oob add_front_fx_shift add_front_fl_shift
+Global Opaque set_fixed_ne set_ge set_le set_below set_above mkfix_oob mkfl_oob add_front_fx_shift add_front_fl_shift
   add_front_fx_idx add_front_fl_idx add_back_fx_idx add_back_fl_idx mpfix_req_idx mpfix_fx_idx mpfix_fl_idx
   mpfl_req_idx mpfl_fx_idx mpfl_fl_idx rec_len_bad rec_gflp_idx rec_gpidx_fl rec_gpidx_fx mdict_midx_bad.
 
